@@ -398,6 +398,10 @@ class ProcProxyThread(threading.Thread):
         self.start()
 
     def __del__(self):
+        self._clean_up()
+
+    def _clean_up(self):
+        """Puts back the signal handlers swapped in by the constructor."""
         self._restore_sigint()
         self._restore_sigbreak()
 
@@ -554,8 +558,7 @@ class ProcProxyThread(threading.Thread):
     def wait(self, timeout=None):
         """Waits for the process to finish and returns the return code."""
         self.join()
-        self._restore_sigint()
-        self._restore_sigbreak()
+        self._clean_up()
         return self.returncode
 
     #
